@@ -161,6 +161,11 @@ namespace ip {
 			m_forwarder.reset();
 		}
 
+		// datagrams still unread are discarded with the socket; they must not
+		// show up on a later binding of this object
+		m_incoming_queue.clear();
+		m_queue_size = 0;
+
 		cancel(ec);
 	}
 	catch (std::bad_alloc const&)
